@@ -298,10 +298,13 @@ class Code:
         self._trial, self._jvp_opt = {}, {}
         self._eigh_jvp = jax.jit(lambda A, Ad: jax.jvp(linalg_utils._eigh, (A,), (Ad,)))
 
+    n_opt_iter = None        # None = the library's default (30); the check also uses 1 and 2
+
     def trial(self, kind, norb, nelec):
-        key = (kind, norb, tuple(nelec))
+        key = (kind, norb, tuple(nelec), self.n_opt_iter)
         if key not in self._trial:
-            self._trial[key] = getattr(self.wfn, kind)(norb, tuple(int(x) for x in nelec))
+            kw = {} if self.n_opt_iter is None else {"n_opt_iter": int(self.n_opt_iter)}
+            self._trial[key] = getattr(self.wfn, kind)(norb, tuple(int(x) for x in nelec), **kw)
         return self._trial[key]
 
     def ham(self, h1, L):
